@@ -11,7 +11,7 @@ import (
 
 func init() {
 	register(&CheckDef{ID: "C17", Level: "exploration", Engine: "A", Draw: drawC17,
-		Rule: "workload of 1-6 connections (handshakes in progress and stalled, idle HTTP/1.1 keep-alive, open HTTP/2, HTTP/1.1 exchanges held in flight by a back-end that sleeps 1-3 simulated seconds or parks until released) with the server context cancelled as a controller action at a drawn decision index (including before Serve, and a repeated cancel later), followed by 1-2 clients that attempt to connect after the cancellation. Oracle: no request of a connection attempted after the cancel reaches the back-end; Serve has not returned while a back-end-acknowledged HTTP/1.1 exchange is still unanswered; once none is, Serve returns http.ErrServerClosed with the listener closed within 2 simulated seconds; idle HTTP/1.1 connections are closed. Non-trivial: the cancel fired while at least one connection was open or a late client tried to connect. Distinct: distinct controller action-label sequences."})
+		Rule: "workload of 1-6 connections (handshakes in progress and stalled, idle HTTP/1.1 keep-alive, open HTTP/2, HTTP/1.1 exchanges held in flight by a back-end that sleeps 1-3 simulated seconds or parks until released) with the server context cancelled as a controller action at a drawn decision index (including before Serve, and a repeated cancel later), followed by 1-2 clients that attempt to connect after the cancellation. Oracle: no request of a connection attempted after the cancel reaches the back-end; Serve has not returned while a back-end-acknowledged HTTP/1.1 exchange is still unanswered; once none is, Serve returns http.ErrServerClosed with the listener closed within 7 simulated seconds (net/http counts a connection that never sent a request as idle once it is 5 s old); idle and fresh HTTP/1.1 connections are closed. Non-trivial: the cancel fired while at least one connection was open or a late client tried to connect. Distinct: distinct controller action-label sequences."})
 }
 
 type c17Aux struct {
@@ -24,9 +24,12 @@ func drawC17(t *rapid.T) *Case {
 	aux := &c17Aux{}
 	n := rapid.IntRange(0, 5).Draw(t, "nconn")
 	var metas []*ClientMeta
-	kinds := []string{"h1ok", "h1idle_close", "h2ok", "h2idle", "abort_handshake", "stall_wait", "h1slow", "noneok"}
+	kinds := []string{"h1ok", "h1idle_close", "h2ok", "h2idle", "abort_handshake", "stall_wait", "h1slow", "noneok", "h1fresh"}
 	for ci := 0; ci < n; ci++ {
 		kind := kinds[rapid.IntRange(0, len(kinds)-1).Draw(t, "kind")]
+		if v := osGetenv("VERIF_C17_KIND"); v != "" {
+			kind = v
+		}
 		var cp *ClientPlan
 		var m *ClientMeta
 		switch kind {
@@ -35,6 +38,12 @@ func drawC17(t *rapid.T) *Case {
 			// stay connected after the requests: wait for the server to hang up
 			cp.Steps[len(cp.Steps)-1] = Step{Kind: "readeof"}
 			cp.Steps = append(cp.Steps, Step{Kind: "close"})
+		case "h1fresh":
+			// handshake done, no request sent: net/http counts such a connection as idle once it
+			// is 5 seconds old; shutdown has to close it
+			cp, m = DrawConnClient(t, ci, "h1ok", 10)
+			m.Reqs = nil
+			cp.Steps = []Step{{Kind: "connect"}, {Kind: "readeof"}, {Kind: "close"}}
 		case "h1slow":
 			cp, m = DrawConnClient(t, ci, "h1ok", 10)
 			for _, r := range m.Reqs {
@@ -174,7 +183,9 @@ func oracleC17(w *World, c *Case) {
 	if lastExchange > ref {
 		ref = lastExchange
 	}
-	if at > ref+2*time.Second {
+	// "within seconds": net/http's Shutdown treats a connection that has not sent a request
+	// as idle only once it is 5 seconds old, and polls at up to 500 ms
+	if at > ref+7*time.Second {
 		w.Violate("serve_return_late", "serve_return_late", "%s: Serve returned %v after cancel / last in-flight exchange (cancel at %v, last exchange %v, returned at %v)", c.Summary, at-ref, w.CancelledAt, lastExchange, at)
 	}
 	if snap, ok := w.Aux.(map[string]int); ok {
@@ -185,7 +196,9 @@ func oracleC17(w *World, c *Case) {
 			w.Net.mu.Lock()
 			now := cl.conn.pair.B.out.total
 			w.Net.mu.Unlock()
-			if before, seen := snap[cl.Name]; seen && now > before {
+			// a TLS alert / close_notify (<= 31 bytes) may still follow on a connection that was
+			// completing or failing its handshake when Serve returned; a response cannot be that short
+			if before, seen := snap[cl.Name]; seen && now > before+63 {
 				w.Violate("returned_with_exchange_in_flight", "returned_with_exchange_in_flight", "%s: the proxy wrote %d more bytes to HTTP/1.1 connection c%d after Serve had returned: an exchange was still in flight", c.Summary, now-before, ci)
 			}
 		}
@@ -205,16 +218,27 @@ func oracleC17(w *World, c *Case) {
 	}
 	// idle HTTP/1.1 connections must have been closed by the proxy
 	for ci, m := range c.Metas {
-		if m.Kind != "h1idle_close" {
+		if m.Kind != "h1idle_close" && m.Kind != "h1fresh" {
 			continue
 		}
 		cl := w.Clients[ci]
 		if cl.conn == nil || !cl.HandshakeOK {
 			continue
 		}
-		if !cl.conn.pair.B.Closed() {
-			w.Violate("idle_h1_not_closed", "idle_h1_not_closed", "%s: idle HTTP/1.1 connection c%d still open %v after the cancel", c.Summary, ci, w.Now()-w.CancelledAt)
-		} else {
+		closed, after := serverClosedAfter(w, cl)
+		closedAt := after + cl.ConnectedAt
+		// idle keep-alive connections are closed at once; one that never sent a request counts
+		// as idle once it is 5 s old; Shutdown polls at up to 500 ms
+		limit := w.CancelledAt + 2*time.Second
+		if m.Kind == "h1fresh" && cl.ConnectedAt+5*time.Second > w.CancelledAt {
+			limit = cl.ConnectedAt + 7*time.Second
+		}
+		switch {
+		case !closed:
+			w.Violate("idle_h1_not_closed", "idle_h1_not_closed", "%s: idle HTTP/1.1 connection c%d (%s) still open %v after the cancel", c.Summary, ci, m.Kind, w.Now()-w.CancelledAt)
+		case closedAt > limit:
+			w.Violate("idle_h1_closed_late", "idle_h1_not_closed", "%s: idle HTTP/1.1 connection c%d (%s) was closed %v after the cancel (connected at %v, cancel at %v), not by the shutdown but by a later timeout", c.Summary, ci, m.Kind, closedAt-w.CancelledAt, cl.ConnectedAt, w.CancelledAt)
+		default:
 			w.Probe("idle_h1_closed_by_shutdown")
 		}
 	}
